@@ -501,7 +501,14 @@ func mergeEvidence(prop, tier string, seed int, cfg propCfg, tc tierCfg, results
 				}
 				continue
 			}
-			extraInfo[k] = v
+			if f, ok := v.(float64); ok {
+				if prev, ok2 := extraInfo[k].(float64); ok2 {
+					f += prev
+				}
+				extraInfo[k] = f
+			} else {
+				extraInfo[k] = v
+			}
 			if k == "exhaustive" {
 				if b, ok := v.(bool); ok && b {
 					exhaustive = true
